@@ -233,7 +233,11 @@ class _ADV(_Adapter):
     def _xy(self, k):
         d = self.data(k)
         X = np.asarray(d["X"], dtype=float)
-        y = np.asarray(d["yreal"], dtype=float) if self.cfg["regressor"] else np.asarray(d["y"])
+        if self.cfg["regressor"]:
+            y = np.asarray(d["yreal"], dtype=float)
+        else:
+            enc = d.get("yenc") or [0, 1]  # the two datasets may use different label sets
+            y = np.asarray([enc[v] for v in d["y"]])
         return X, y, np.asarray(d["g"])
 
     def fit(self, est, k):
@@ -244,7 +248,8 @@ class _ADV(_Adapter):
         X, y, g = self._xy(k)
         params = [p.detach().numpy().tolist() for p in est.backendEngine_.predictor_model.parameters()]
         params += [p.detach().numpy().tolist() for p in est.backendEngine_.adversary_model.parameters()]
-        return {"raw": np.asarray(est._raw_predict(X), dtype=float).tolist(), "params": params, "n_iter": int(est.n_iter_)}
+        return {"raw": np.asarray(est._raw_predict(X), dtype=float).tolist(), "params": params, "n_iter": int(est.n_iter_),
+                "pred": np.asarray(est.predict(X)).tolist()}
 
     def predict(self, est, k, seed):
         X, y, g = self._xy(k)
@@ -338,6 +343,9 @@ def check(case):
                     raise PropertyViolation(f"{what}: clone changed parameter {key!r}: {v0!r} -> {p1[key]!r}")
             params0 = p1
             fitted_on = None
+    if case["estimator"] == "adv" and refit_diff and not case["config"]["regressor"] and \
+            case["D1"].get("yenc") != case["D2"].get("yenc"):
+        tags.add("adv_refit_other_label_set")
     if refit_diff or post_fit_copy:
         tags.add("nt")
     if refit_diff:
@@ -450,8 +458,13 @@ def _cr_hist(draw):
 def _adv_hist(draw):
     reg = draw(st.booleans())
     labels = draw(st.sampled_from([[0, 1, 2], ["a", "b", "c"]]))
+    d1 = draw(_labelled(min_per=2, max_per=4, labels=labels))
+    d2 = draw(_labelled(min_per=2, max_per=4, labels=labels))
+    encs = [[0, 1], ["no", "yes"], [1, 2], [0, 1], ["b", "a"]]
+    d1["yenc"] = draw(st.sampled_from(encs))
+    d2["yenc"] = draw(st.sampled_from(encs))
     return {"estimator": "adv", "ops": draw(_ops), "seed": 0,
-            "D1": draw(_labelled(min_per=2, max_per=4, labels=labels)), "D2": draw(_labelled(min_per=2, max_per=4, labels=labels)),
+            "D1": d1, "D2": d2,
             "config": {"regressor": reg, "pm": draw(st.sampled_from([[], [3, "leaky_relu"], [2, "sigmoid"]])),
                        "am": draw(st.sampled_from([[], [2, "leaky_relu"]])), "lr": draw(st.sampled_from([0.1, 0.01])),
                        "alpha": draw(st.sampled_from([0.0, 1.0])), "epochs": draw(st.sampled_from([1, 2])),
